@@ -188,6 +188,55 @@ def _extent_known_at_callers(prog, b, op):
     return n > 0
 
 
+def _closure_gets_checked_slice(prog, b, op):
+    """a closure whose slice parameter is the Some payload of `s.get_mut(range)`: the parent hands the closure to
+    Option::map / Option::map_or* applied to that very Option, so the extent of what the closure mutates is the range"""
+    if b.kind != "Closure":
+        return False
+    k = _param_of(b, op)
+    if k != 2:                                  # (closure env, item)
+        return False
+    parent_path = re.sub(r"::\{closure#\d+\}$", "", b.path)
+    parent = next((x for x in prog.bodies.values() if x.path == parent_path), None)
+    if parent is None:
+        return False
+    from ..mirq import q_of
+    q = q_of(parent)
+    n = 0
+    for cs in parent.calls():
+        if parent.blocks[cs.block]["cleanup"] or not re.search(r"^std::option::Option::<&mut \[u8\]>::(map|map_or|map_or_else|inspect)::<", cs.full):
+            continue
+        if "{closure" not in cs.full or len(cs.args) < 2:
+            continue
+        # the closure handed to this map(..) is `b` itself (its aggregate names the closure body)
+        a1 = cs.args[1]
+        which = None
+        if a1["k"] in ("copy", "move") and not a1["place"]["p"]:
+            for blk_ in parent.blocks:
+                for st_ in blk_["stmts"]:
+                    if st_["k"] == "assign" and st_["place"]["l"] == a1["place"]["l"] and not st_["place"]["p"] and \
+                            st_["rv"]["k"] == "aggregate" and st_["rv"].get("agg") == "closure":
+                        which = st_["rv"].get("closure")
+        if which != b.path:
+            continue
+        a0 = cs.args[0]
+        if a0["k"] not in ("copy", "move") or a0["place"]["p"]:
+            return False
+        d = q.single_def(a0["place"]["l"])
+        if d is None or d.kind != "call" or not re.search(r"slice::<impl \[.*\]>::get_mut(::<.*>)?$", d.call.callee_path):
+            return False
+        pr = prover.Prover(parent)
+        pr.at = (d.call.block, 10 ** 6)
+        try:
+            rng = pr.range_of(d.call.args[1])
+        finally:
+            pr.at = None
+        if rng is None or rng[0] not in ("Range", "RangeTo") or rng[2] is None:
+            return False
+        n += 1
+    return n == 1
+
+
 def check(ctx, env):
     ctx.explanation = (
         "Static: (R14.1) panic-site inventory from MessageEncoder::encode over every attribute encoder (all features): each "
@@ -259,6 +308,8 @@ def check(ctx, env):
                 pr.at = None
             if ex is None and _extent_known_at_callers(prog, b, c.args[0]):
                 continue            # a helper split off by a refactoring: every caller passes a slice of known extent
+            if ex is None and _closure_gets_checked_slice(prog, b, c.args[0]):
+                continue            # `s.get_mut(..n).map(|sub| sub.fill(v))`: the closure mutates exactly the checked range
             if ex is None and c.callee_path.endswith("::iter_mut") and _only_taken(b, c):
                 continue            # `s.iter_mut().take(n)`: at most n elements are written, n is what the take bounds
             if ex is None:
